@@ -162,7 +162,7 @@ def plan_C08(tier, seed):
 
 
 def plan_C17(tier, seed):
-    k = 2 if tier == "quick" else 3
+    k = 2 if tier == "quick" else 4
     c = {"DEV_AtoiIndex": "FALSE", "MUT_UnescapeOrder": "FALSE", "K": k}
     jobs = [tlc("c17_%s" % f, "MC_Pointer", dict(c, Family=q(f)), inv, workers=6)
             for f, inv in (("P1", ["Designated", "Emit"]), ("P2", ["Emit"]))]
@@ -235,7 +235,7 @@ def plan_C18(tier, seed):
 
 
 def plan_C15(tier, seed):
-    j = tlc("c15_defaults", "MC_Defaults", {"K": 1 if tier == "quick" else 2, "DEV_EmptyContainerDefault": "FALSE"},
+    j = tlc("c15_defaults", "MC_Defaults", {"K": 2 if tier == "quick" else 3, "DEV_EmptyContainerDefault": "FALSE"},
             ["LawsHold", "Emit"], workers=6)
     return dict(
         tlc=[j], parallel=1,
@@ -251,7 +251,7 @@ def plan_C15(tier, seed):
 
 
 def plan_C20(tier, seed):
-    j = tlc("c20_clone", "MC_Clone", {"K": 1 if tier == "quick" else 2, "MUT_SkipField": q("none")}, ["CloneOK", "Emit"], workers=6)
+    j = tlc("c20_clone", "MC_Clone", {"K": 2 if tier == "quick" else 3, "MUT_SkipField": q("none")}, ["CloneOK", "Emit"], workers=8)
     return dict(
         tlc=[j], parallel=1,
         replay=[dict(name="c20_replay", family="clone", inputs=[j["name"]])],
